@@ -66,24 +66,41 @@ def gen_angle(r, style):
     raise ValueError(style)
 
 
-STYLES = ["small", "huge", "pi-multiple", "branch", "dyadic", "tiny", "mixed"]
+ANGLE_STYLES = ["small", "huge", "pi-multiple", "branch", "dyadic", "tiny"]
+STYLES = ANGLE_STYLES + ["near-dup", "mixed"]
 
 
 def gen_matrix(r, rows, cols, style):
+    if style == "near-dup":
+        # class d: consecutive columns equal or differing by ~3e-3 (isApprox-equal): exposes "reuse the previous column" shortcuts
+        base = r.choice(["small", "huge", "branch"])
+        M = []
+        for _ in range(rows):
+            row = [gen_angle(r, base)]
+            for _ in range(cols - 1):
+                row.append(row[-1] if r.random() < 0.2 else row[-1] + 3e-3 * r.uniform(-1, 1) * max(1.0, abs(row[-1]) * 1e-3))
+            M.append(row)
+        return M
+
     def one():
-        s = style if style != "mixed" else r.choice(STYLES[:-1])
+        s = style if style != "mixed" else r.choice(ANGLE_STYLES)
         return gen_angle(r, s)
     return [[one() for _ in range(cols)] for _ in range(rows)]
 
 
+VARIANT = {"B": False}
+
+
 def line_add(op, a, b):
+    if VARIANT["B"]:
+        op = op + "B"
     rows, cols = len(a), len(a[0])
     return " ".join([op, str(rows), str(cols)] + vlib.fmt_mat_cm(a) + [hexd(x) for x in b])
 
 
 def line_mean(a, w):
     rows, cols = len(a), len(a[0])
-    return " ".join(["dmean", str(rows), str(cols)] + vlib.fmt_mat_cm(a) + [hexd(x) for x in w])
+    return " ".join(["dmeanB" if VARIANT["B"] else "dmean", str(rows), str(cols)] + vlib.fmt_mat_cm(a) + [hexd(x) for x in w])
 
 
 def shift_value(r, x):
@@ -103,10 +120,11 @@ def gen_addsub(g, shapes, n_extra):
     for _ in range(n_extra):
         todo.append(extra_shape(r) + (r.choice(STYLES),))
     for rows, cols, st in todo:
+        VARIANT["B"] = r.random() < 0.3
         op = r.choice(["dadd", "dsub"])
         a = gen_matrix(r, rows, cols, st)
-        bstyle = r.choice(STYLES)
-        b = [gen_angle(r, bstyle if bstyle != "mixed" else r.choice(STYLES[:-1])) for _ in range(rows)]
+        bstyle = r.choice(ANGLE_STYLES + ["mixed"])
+        b = [gen_angle(r, bstyle if bstyle != "mixed" else r.choice(ANGLE_STYLES)) for _ in range(rows)]
         if st == "branch" and r.random() < 0.5:
             b = [0.0] * rows                          # the sum is exactly the value at the branch cut
         if st == "pi-multiple" and r.random() < 0.3:
@@ -134,6 +152,12 @@ def weights(r, cols, wstyle):
         w = [r.uniform(0.02, 1.0) for _ in range(cols)]
         s = math.fsum(w)
         return [x / s for x in w], wstyle
+    if wstyle == "scaled":
+        # positive, not normalised: 1e-3 .. 1e10 times a normalised vector (the property fixes no normalisation, only the resultant length)
+        sc = 10 ** r.uniform(-3, 10)
+        w = [r.uniform(0.02, 1.0) for _ in range(cols)]
+        s_ = math.fsum(w)
+        return [sc * x / s_ for x in w], wstyle
     if wstyle == "skewed":
         w = [10 ** r.uniform(-6, 0) for _ in range(cols)]
         s = math.fsum(w)
@@ -161,7 +185,7 @@ def gen_mean_matrix(r, rows, cols, st, w, wstyle):
     """returns (a, extra_meta); styles const / arc / sigma build structured rows"""
     extra = {}
     if st == "const":
-        th = [gen_angle(r, r.choice(STYLES[:-1])) for _ in range(rows)]
+        th = [gen_angle(r, r.choice(ANGLE_STYLES)) for _ in range(rows)]
         a = [[th[i]] * cols for i in range(rows)]
         extra["theta"] = th
     elif st == "arc":
@@ -256,7 +280,7 @@ def gen_short(r, rows, cols):
 
 
 MEAN_STYLES = STYLES + ["const", "arc", "sigma", "short", "short"]
-W_STYLES = ["uniform", "positive", "skewed", "unscented", "unscented-scaled"]
+W_STYLES = ["uniform", "positive", "skewed", "scaled", "unscented", "unscented-scaled"]
 
 
 def gen_mean(g, shapes, n_extra, stats):
@@ -269,6 +293,7 @@ def gen_mean(g, shapes, n_extra, stats):
     for _ in range(n_extra):
         todo.append(extra_shape(r) + (r.choice(MEAN_STYLES),))
     for rows, cols, st in todo:
+        VARIANT["B"] = r.random() < 0.3
         for attempt in range(50):
             wstyle = r.choice(W_STYLES)
             if st == "arc":
@@ -309,7 +334,7 @@ def gen_mean(g, shapes, n_extra, stats):
 
 def parse(line):
     t = line.split()
-    op, rows, cols = t[0], int(t[1]), int(t[2])
+    op, rows, cols = t[0].rstrip("B"), int(t[1]), int(t[2])       # "B": block / aliasing variant of the same call
     a = vlib.mat_from_cm(t[3:3 + rows * cols], rows, cols, unhex)
     rest = [unhex(x) for x in t[3 + rows * cols:]]
     return op, rows, cols, a, rest
@@ -494,6 +519,28 @@ def nontrivial(line):
     return any(abs(a[i][j] + (rest[i] if op == "dadd" else -rest[i])) > PI_D for i in range(rows) for j in range(cols))
 
 
+def build_plain():
+    """the same harness and directional_statistics.cpp compiled without sanitizers at -O2 -DNDEBUG -march=native
+    (vectorised / optimisation-dependent paths that the -O1 sanitizer build does not take)"""
+    import os
+    out = vlib.BUILD / "plain" / "h"
+    out.mkdir(parents=True, exist_ok=True)
+    binary, dep = out / "h_dir_plain", out / "h_dir_plain.d"
+    src = [vlib.VERIF / "harness" / "h_dir.cpp", vlib.REPO / "src/BayesFilters/src/directional_statistics.cpp"]
+    with vlib.locked("plain-h_dir"):
+        stale = vlib._deps_stale(binary, dep, src)
+        if not stale:
+            # the dependency file only lists the headers of the last translation unit: compare the library source as well
+            stale = any(os.stat(str(p_)).st_mtime > binary.stat().st_mtime for p_ in src)
+        if stale:
+            cmd = ["g++", "-std=c++11", "-O2", "-DNDEBUG", "-march=native", "-I", str(vlib.REPO / "src/BayesFilters/include"), "-I", vlib.EIGEN_INC,
+                   "-I", str(vlib.VERIF / "harness"), "-MMD", "-MF", str(dep)] + [str(x) for x in src] + ["-o", str(binary)]
+            rc, o, e = vlib.sh(cmd)
+            if rc != 0:
+                raise vlib.BuildError("plain harness h_dir failed to compile:\n%s" % e[-4000:])
+    return binary
+
+
 def run(ctx):
     ctx.proof_stage()
     if not ctx.quick() and not ctx.replay:
@@ -510,7 +557,7 @@ def run(ctx):
         metas = rp.get("metas") or [None] * len(rp.get("input_lines", []))
         for ln, m in zip(rp.get("input_lines", []), metas):
             m = dict(m) if m else {"role": "base"}
-            m.update({"kind": ln.split()[0], "style": "replay", "shape": "%sx%s" % tuple(ln.split()[1:3])})
+            m.update({"kind": ln.split()[0].rstrip("B"), "style": "replay", "shape": "%sx%s" % tuple(ln.split()[1:3])})
             cases.append((ln, m))
     else:
         # regression witness and corpus run first
@@ -520,7 +567,7 @@ def run(ctx):
             for ln in corpus.read_text().split("\n"):
                 ln = ln.strip()
                 if ln and not ln.startswith("#"):
-                    cases.append((ln, {"kind": ln.split()[0], "style": "corpus", "role": "base", "shape": "%sx%s" % tuple(ln.split()[1:3])}))
+                    cases.append((ln, {"kind": ln.split()[0].rstrip("B"), "style": "corpus", "role": "base", "shape": "%sx%s" % tuple(ln.split()[1:3])}))
         shapes = [(r_, c_) for r_ in ROWS for c_ in COLS]
         off = len(cases)
         part = gen_addsub(ctx.gen("addsub"), shapes, ctx.n(60, 3000))
@@ -561,6 +608,22 @@ def run(ctx):
             check_addsub(idx, cases, hres, dres, stats, problems)
         if nontrivial(ln):
             distinct.add(ln)
+    # second pass: the same cases through the plain -O2 build, same predicates
+    plain = build_plain()
+    pout, plogs = vlib.run_harness(plain, lines)
+    pres = []
+    for (ln, m, h, d), po in zip(cases, pout):
+        op, rows, cols, _, _ = parse(ln)
+        pres.append(parse_out(po, rows * cols if op != "dmean" else rows))
+    pstats, pproblems = {}, []
+    pcases = [(ln, m, po, d) for (ln, m, h, d), po in zip(cases, pout)]
+    for idx, (ln, m, po, d) in enumerate(pcases):
+        (check_mean if m["kind"] == "dmean" else check_addsub)(idx, pcases, pres, dres, pstats, pproblems)
+    problems += [(k, key, "[plain -O2 -march=native build] " + what, idx) for (k, key, what, idx) in pproblems]
+    stats["plain_build"] = {"cases": len(pcases), "crashes": len(plogs),
+                            "max_err_over_tol_mean": pstats.get("max_err_over_tol_mean"), "max_err_over_tol_addsub": pstats.get("max_err_over_tol_addsub")}
+    for i, log in list(plogs.items())[:3]:
+        ctx.violation("crash:plain:" + pout[i], "plain build crashed on a valid input: %s" % pout[i], {"harness": "h_dir (plain)", "input_lines": [lines[i]], "log": log[-1500:]})
     prop_bad = [p for p in problems if p[0] == "prop"]
     corr_bad = [p for p in problems if p[0] == "corr"]
     seen = {}
